@@ -425,7 +425,8 @@ def chain_task(k, opname, order_vars, fixed=None):
         rec['text'] = (' %s ' % opname).join(LEAF_KINDS[code(j)] for j in range(k))
         rec['model'] = m
     # reachability witness: some leaf combination parses without raising (with a pinned constant operand the value itself may be constant)
-    rec['twin'] = d.holds(b_not(rt), ok_g)
+    t_ok = d.holds(b_not(rt), ok_g)
+    rec['twin'] = t_ok if t_ok == 'sat' else d.holds(rt)      # (with the pinned operand outside the ordering every combination raises)
     rec.update(d.stats())
     d.close()
     return rec
